@@ -48,7 +48,7 @@ def check_python(report):
     leaves = decision_leaves(e)
     r.need(all(isinstance(v, ast.Tuple) and len(v.elts) == 2 for _, v in leaves), "every outcome is a (retry, timeout) pair")
     SEL = "{'service': f\"{'.'.join(" + SA + ".package)}.{" + SA + ".name}\", 'method': " + MP + ".name}"
-    MC = f"next((_c1 for _c1 in self.opts.retry.get('methodConfig', []) if {SEL} in _c1.get('name')), None)"
+    MC = f"next((_c1 for _c1 in self.opts.retry.get('methodConfig', []) if {SEL} in _c1.get('name', None)), None)"
     MC = ast.unparse(ast.parse(MC, mode="eval").body)
     base = {("self.opts.retry", True), (MC, True)}
     seen_mc = any((MC, True) in c for c, _ in leaves)
@@ -65,8 +65,8 @@ def check_python(report):
     for c, v in leaves:
         if not base <= set(c):
             continue
-        has = (f"{MC}.get('timeout')", True) in c
-        want = (f"self._to_float({MC}['timeout'])", f"self._to_float({MC}.get('timeout'))") if has else ("None",)
+        has = (f"{MC}.get('timeout', None)", True) in c
+        want = (f"self._to_float({MC}['timeout'])", f"self._to_float({MC}.get('timeout', None))") if has else ("None",)
         okt = okt and ast.unparse(v.elts[1]) in want
     r.check(okt and seen_mc, p, fn.lineno, "timeout component", "timeout must be self._to_float(<entry>['timeout']) when the entry has a timeout, else None")
     # retry component
